@@ -311,6 +311,36 @@ func c19Periods(c *rig.Ctx) {
 			ex = fmt.Sprintf("%v -> %s -> %v", d, js, got)
 		}
 		n++
+		// the same relative end time read into a value (and into a parent struct) that was decoded into before:
+		// what an earlier message left there must not change how this one is read back
+		if i%4 == 0 {
+			text := string(*model.NewDurationType(d))
+			var reused model.TimePeriodType
+			_ = json.Unmarshal([]byte(`{"startTime":"PT0S","endTime":"PT2H"}`), &reused)
+			err1 := json.Unmarshal([]byte(`{"endTime":"`+text+`"}`), &reused)
+			g1, e1 := reused.GetDuration()
+			var parent model.LoadControlLimitDataType
+			_ = json.Unmarshal([]byte(`{"limitId":1,"timePeriod":{"startTime":"PT0S","endTime":"PT2H"}}`), &parent)
+			err2 := json.Unmarshal([]byte(`{"limitId":1,"timePeriod":{"endTime":"`+text+`"}}`), &parent)
+			var g2 time.Duration
+			var e2 error = fmt.Errorf("no time period")
+			if parent.TimePeriod != nil {
+				g2, e2 = parent.TimePeriod.GetDuration()
+			}
+			c.Count("periods_decoded_into_reused_values", 2)
+			for k, x := range []struct {
+				g    time.Duration
+				e, u error
+			}{{g1, e1, err1}, {g2, e2, err2}} {
+				df := x.g - d
+				if df < 0 {
+					df = -df
+				}
+				if x.u != nil || x.e != nil || df > 2*time.Second {
+					c.Violate("period/reused-value", "relative end time %q decoded into a %s that held an earlier period: read back %v (unmarshal err=%v, GetDuration err=%v), want %v", text, []string{"TimePeriodType value", "parent struct"}[k], x.g, x.u, x.e, d)
+				}
+			}
+		}
 	}
 	c.Count("periods", int64(n))
 	c.Events(int64(n))
